@@ -1,6 +1,7 @@
 //! wfh: runs correspondence cases against the real wirefilter implementation.
 //! One s-expression case per input line, one canonical result per output line.
 mod c06;
+mod c07;
 mod c08;
 mod c09;
 mod c10;
@@ -31,6 +32,7 @@ fn dispatch(case: &Sexp) -> Option<Sexp> {
         "contains" | "simd-active" => c10::run(head, args),
         "wildcard" | "regex" => c11::run(head, args),
         "lit" | "lit-span" => c06::run(head, args),
+        "c07" | "c07-same" | "c07-distinct" => c07::run(head, args),
         "uses" | "uses-value" => c12::run(head, args),
         "ctx-roundtrip" | "ctx-roundtrip-exec" | "ctx-json" | "value-roundtrip" | "value-json" => c14::run(head, args),
         "type-codec" | "type-json" | "scheme-json" | "scheme-roundtrip" | "ctype-build" | "ctype-decode" => {
